@@ -113,17 +113,24 @@ def stormStates (H : Hasher) (s : CH) (prog : List Op) : List (CH × Option CH) 
   | op :: rest =>
     (s, if isAdd op then some (remove H s (opNode op)) else none) :: stormStates H (step H s op) rest
 
-/-- is the answer `o` for key `k` in the window [lo, hi] explained (cf. `Conc.Explained`)? -/
-def explainedBy (H : Hasher) (states : List (CH × Option CH)) (k : Node) (lo hi : Nat) (o : Outcome)
-    (withMid : Bool := true) : Bool :=
+/-- the implementation's own sequential answers, `S<j>/a;a;…` and `M<j>/a;a;…` -/
+def parseRef (t : String) : Option (List (Bool × Nat × List String)) :=
+  (t.splitOn ",").mapM fun e =>
+    match e.splitOn "/" with
+    | tag :: rest@(_ :: _) =>
+      let isMid := tag.startsWith "M"
+      if !(isMid || tag.startsWith "S") then none else
+      ((tag.drop 1).toString.toNat?).map fun j => (isMid, j, ("/".intercalate rest).splitOn ";")
+    | _ => none
+
+def refLookup (ref : List (Bool × Nat × List String)) (mid : Bool) (j ki : Nat) : Option String :=
+  (ref.find? fun e => e.1 == mid && e.2.1 == j).bind fun e => e.2.2[ki]?
+
+/-- is the concurrent answer for key index `ki` in window [lo, hi] one of the implementation's sequential
+answers in that window (after j operations, lo ≤ j ≤ hi; or inside adding operation j, lo ≤ j < hi)? -/
+def explainedByRef (ref : List (Bool × Nat × List String)) (ki lo hi : Nat) (ans : String) (withMid : Bool := true) : Bool :=
   (List.range (hi + 1)).any fun j =>
-    lo ≤ j && match states[j]? with
-      | none => false
-      | some (sj, mid) =>
-        get H sj k == o ||
-          (withMid && j < hi && match mid with
-            | some sm => get H sm k == o
-            | none => false)
+    lo ≤ j && (refLookup ref false j ki == some ans || (withMid && j < hi && refLookup ref true j ki == some ans))
 
 def parseProg (t : String) : Option (List Op) :=
   if t = "-" then some [] else
@@ -251,7 +258,7 @@ def runSection (r : Report) (sec : Section) : Report := Id.run do
           r := r.addCover ("storm-" ++ branchOf s m op)
           s := step H s op
           m := specStep s.replicas m op
-        let implState := joinSp (l.obs.filter fun t => !(t.startsWith "f=") && !(t.startsWith "r="))
+        let implState := joinSp (l.obs.filter fun t => !(t.startsWith "f=") && !(t.startsWith "r=") && !(t.startsWith "q=") && t ≠ "DATARACE")
         let mine := observe H s probes
         if mine ≠ implState then r := r.mismatch sec.idx l.idx mine implState
         if l.obs.head? = some "PANIC" then
@@ -267,36 +274,55 @@ def runSection (r : Report) (sec : Section) : Report := Id.run do
               r := r.violation sec.idx l.idx s!"history-dependent: Get {showOutcome (.node k)} is {showOutcome o} but {showOutcome o'} on an instance built from the same members, after [{opS}]"
           prev := g
         | _, _ => r := r.mismatch sec.idx l.idx "bad-obs" (joinSp l.obs)
-        -- the readers' observations
+        -- the implementation's sequential answers (twin instance) must be the model's
         let memberships : List SMap := (prog.foldl (fun (acc : List SMap × SMap × CH) op =>
             let s' := step H acc.2.2 op
             let m' := specStep s'.replicas acc.2.1 op
             (acc.1 ++ [m'], m', s')) ([m0], m0, s0)).1
-        let tuples := (kvStr l.obs "r" "").splitOn ","
-        for t in tuples do
-          if t = "" then continue
-          match t.splitOn "/" with
-          | ki :: lo :: hi :: rest@(_ :: _) =>
-            match ki.toNat?.bind (fun i => keys[i]?), lo.toNat?, hi.toNat?, parseOutcome ("/".intercalate rest) with
-            | some k, some lo, some hi, some o =>
-              r := r.addCover "storm-get"
-              if lo < hi then r := r.addCover "storm-get-overlapping-writer"
-              if o == .panic then
-                r := r.violation sec.idx l.idx s!"concurrent: Get {showOutcome (.node k)} panics during [{progT}]"
-              else if !explainedBy H states k lo hi o then
-                r := r.violation sec.idx l.idx s!"concurrent: Get {showOutcome (.node k)} returned {showOutcome o} in window [{lo},{hi}] of [{progT}]: no state of the writer in that window gives this answer"
-              else
-                -- independent of the model's states: a member of some membership in the window
-                let ok := match o with
-                  | .node _ => (List.range (hi + 1)).any fun j => lo ≤ j && (match memberships[j]? with
-                      | some mj => memberOk mj o | none => false)
-                  | _ => true
-                if !ok then
-                  r := r.violation sec.idx l.idx s!"concurrent: Get {showOutcome (.node k)} returned {showOutcome o}, not a member at any point of window [{lo},{hi}] of [{progT}]"
-                if (states[lo]?.map fun st => get H st.1 k != o) == some true then r := r.addCover "storm-get-saw-later-state"
-                if !explainedBy H states k lo hi o false then r := r.addCover "storm-get-saw-gap-between-remove-and-insert"
-            | _, _, _, _ => r := r.mismatch sec.idx l.idx "bad-obs" t
-          | _ => r := r.mismatch sec.idx l.idx "bad-obs" t
+        match parseRef (kvStr l.obs "q" "") with
+        | none => r := r.mismatch sec.idx l.idx "bad-obs" "q="
+        | some ref =>
+          let mut j := 0
+          for (sj, mid) in states do
+            let mineS := keys.map fun k => showOutcome (get H sj k)
+            if (ref.find? fun e => e.1 == false && e.2.1 == j).map (·.2.2) ≠ some mineS then
+              r := r.mismatch sec.idx l.idx s!"S{j}/{";".intercalate mineS}" "sequential reference differs"
+            match mid with
+            | some sm =>
+              let mineM := keys.map fun k => showOutcome (get H sm k)
+              if (ref.find? fun e => e.1 == true && e.2.1 == j).map (·.2.2) ≠ some mineM then
+                r := r.mismatch sec.idx l.idx s!"M{j}/{";".intercalate mineM}" "sequential reference differs"
+            | none => pure ()
+            j := j + 1
+          if l.obs.contains "DATARACE" then
+            r := r.violation sec.idx l.idx s!"concurrent: the Go race detector reports a data race between Get and [{progT}]"
+          -- the readers' observations, against the implementation's own sequential answers
+          let tuples := (kvStr l.obs "r" "").splitOn ","
+          for t in tuples do
+            if t = "" then continue
+            match t.splitOn "/" with
+            | kiS :: lo :: hi :: rest@(_ :: _) =>
+              let ans := "/".intercalate rest
+              match kiS.toNat?, kiS.toNat?.bind (fun i => keys[i]?), lo.toNat?, hi.toNat?, parseOutcome ans with
+              | some ki, some k, some lo, some hi, some o =>
+                r := r.addCover "storm-get"
+                if lo < hi then r := r.addCover "storm-get-overlapping-writer"
+                if o == .panic then
+                  r := r.violation sec.idx l.idx s!"concurrent: Get {showOutcome (.node k)} panics during [{progT}]"
+                else if !explainedByRef ref ki lo hi ans then
+                  r := r.violation sec.idx l.idx s!"concurrent: Get {showOutcome (.node k)} returned {ans} in window [{lo},{hi}] of [{progT}]: not the sequential answer of any state of the writer in that window"
+                else
+                  -- a member of some membership in the window
+                  let ok := match o with
+                    | .node _ => (List.range (hi + 1)).any fun j => lo ≤ j && (match memberships[j]? with
+                        | some mj => memberOk mj o | none => false)
+                    | _ => true
+                  if !ok then
+                    r := r.violation sec.idx l.idx s!"concurrent: Get {showOutcome (.node k)} returned {ans}, not a member at any point of window [{lo},{hi}] of [{progT}]"
+                  if refLookup ref false lo ki != some ans then r := r.addCover "storm-get-saw-later-state"
+                  if !explainedByRef ref ki lo hi ans false then r := r.addCover "storm-get-saw-gap-between-remove-and-insert"
+              | _, _, _, _, _ => r := r.mismatch sec.idx l.idx "bad-obs" t
+            | _ => r := r.mismatch sec.idx l.idx "bad-obs" t
       | _, _ => r := r.mismatch sec.idx l.idx "bad-op" (joinSp l.op)
     | _ =>
       let gated := match l.op with
@@ -320,7 +346,9 @@ def runSection (r : Report) (sec : Section) : Report := Id.run do
         let isMember := m.cnt op.repr > 0
         let collAfter := noCollision H m
         let segs := if gated then splitBar l.obs else [l.obs]
-        let finalObs := segs.getLast?.getD []
+        let finalObs := (segs.getLast?.getD []).filter (· ≠ "DATARACE")
+        if l.obs.contains "DATARACE" then
+          r := r.violation sec.idx l.idx s!"concurrent: the Go race detector reports a data race during [{joinSp l.op}]"
         let opS := joinSp l.op
         if gated then
           -- snapshots taken by reader goroutines while the writer stood at a `String()` call with the lock free:
